@@ -396,6 +396,14 @@ func runC09Attack(idx int, rng *rand.Rand) []Case {
 	defer srv.Close()
 	out := filepath.Join(scratchDir(), fmt.Sprintf("c09attack%d.bin", idx))
 	defer os.Remove(out)
+	if rng.Intn(2) == 0 {
+		// the output file exists already and holds a longer, older stream: none of it may survive
+		old := make([]vegeta.Result, 600)
+		for i := range old {
+			old[i] = vegeta.Result{Attack: "old", Seq: uint64(i), Code: 200, Method: "GET", URL: "http://stale.invalid/", Timestamp: time.Unix(1500000000, 0)}
+		}
+		os.WriteFile(out, encodeResults(old, "gob"), 0o644)
+	}
 	rate := []int{10, 20, 35}[rng.Intn(3)]
 	cmd := exec.Command(os.Getenv("VERIF_VEGETA"), "attack", "-rate", strconv.Itoa(rate), "-duration", "20s", "-output", out)
 	cmd.Stdin = strings.NewReader("GET " + srv.URL + "/\n")
@@ -411,7 +419,7 @@ func runC09Attack(idx int, rng *rand.Rand) []Case {
 	back, _ := decodeAll(vegeta.NewDecoder(bytes.NewReader(b)), 1<<20)
 	// results are written in completion order: every record must be a whole, genuine one (its own
 	// sequence number, the status and URL of this attack), none twice
-	clean := true
+	clean := !bytes.Contains(b, []byte("stale.invalid")) // nothing of an older stream in the file
 	seen := map[uint64]bool{}
 	for i := range back {
 		if seen[back[i].Seq] || back[i].Code != 200 || back[i].URL != srv.URL+"/" || back[i].Method != "GET" {
